@@ -61,7 +61,8 @@ Fams == IF Quick THEN FamsQ ELSE FamsT
 (* the calling convention is spread deterministically over the cases *)
 ConvOf(A, b, s) == LET hh == (ISum(b) + 2 * ISum(s) + ISum([i \in 1..Len(A) |-> A[i][1]]) + 300) % 3
                    IN IF hh = 1 /\ Cols(A) = 1 THEN "1d" ELSE IF hh = 2 THEN "int" ELSE "2d"
-MkWLS(A, b, s) == [kind |-> "wls", A |-> A, b |-> b, s |-> s, conv |-> ConvOf(A, b, s)]
+LayoutOf(A, b, s) == Layouts[((ISum(b) + 3 * ISum(s) + 5 * A[1][1] + 7 * Len(A) + 700) % 4) + 1]
+MkWLS(A, b, s) == [kind |-> "wls", A |-> A, b |-> b, s |-> s, conv |-> ConvOf(A, b, s), layout |-> LayoutOf(A, b, s)]
 
 WlsRootStep == /\ c = Root /\ "wls" \in Families
                /\ \E f \in 1..Len(Fams) : \E A \in Fams[f].as : c' = [kind |-> "wseed", f |-> f, A |-> A]
@@ -191,6 +192,7 @@ C15a_DofCountsWeighted == IsWLS => DofCountsWeighted(c.A, W_, exp)
 C15a_NormalPosDef == IsWLS => NormalPosDef(c.A, W_)
 C15a_NoBetterNeighbour == IsWLS => NoBetterNeighbour(c.A, c.b, W_, exp)
 C15a_ZeroWeightIgnored == IsWLS => ZeroWeightIgnored(c.A, c.b, W_, exp)
+C15a_LayoutIndependent == IsWLS => LayoutIndependent(c)
 C15a_HomogeneousInB == IsWLS => HomogeneousInB(c.A, c.b, c.s, exp, 2)
 C15a_HomogeneousInS == IsWLS => HomogeneousInS(c.A, c.b, c.s, exp, 2)
 C15a_HomogeneousInA == IsWLS => HomogeneousInA(c.A, c.b, c.s, exp, 2)
